@@ -2600,7 +2600,7 @@ class op(object):
                 mmap[i] = mmap[i] + mc
 
         for e in  equalities:
-            mmap[e] = constraints[1].multiplier[eslc[e]]
+            mmap[e] = constraints[-1].multiplier[eslc[e]]
         return (op(cost, constraints), vmap, mmap)
 
 
